@@ -99,7 +99,7 @@ class DnsRecordDnskey(ParsableBase, Serializable):
             exponent_length = key_parser['exponent_length_two_octets']
         key_parser.parse_mpint('public_exponent', exponent_length)
         key_parser.parse_mpint('modulus', key_parser.unparsed_length)
-        if key_parser['public_exponent'] <= 0 or key_parser['modulus'] <= 0:
+        if key_parser['public_exponent'] <= 0 or key_parser['modulus'] <= 1:  # a modulus of one has no size
             raise InvalidValue(key_parser['modulus'], cls, 'key')
 
         return PublicKey.from_params(PublicKeyParamsRsa(
@@ -151,7 +151,7 @@ class DnsRecordDnskey(ParsableBase, Serializable):
         key_parser.parse_mpint('g', mpint_length)
         key_parser.parse_mpint('y', mpint_length)
         for param_name in ['p', 'q', 'g', 'y']:
-            if key_parser[param_name] <= 0:
+            if key_parser[param_name] <= 0 or (param_name == 'p' and key_parser[param_name] == 1):
                 raise InvalidValue(key_parser[param_name], cls, param_name)
         for param_name in ['g', 'y']:
             # generator and public value are elements of the group modulo the prime
